@@ -2,11 +2,11 @@
    Thrift/Spec.v is an independent specification (its own type-code tables, a pure encoder over value
    trees annotated with every free choice of a conforming writer, the message envelope) for the
    binary and compact protocols; binary-LE is pilota-specific and outside the Apache specs.
-   Whole-tree statement for the alternative forms (kept visible; proved below at header level as
-   C03_alt_*, composed over whole trees by the correspondence run on reference-encoded inputs):
-     forall sv, swf sv -> read_val p fuel (stype sv) (senc p sv ++ r) = Ok (canon p (erase sv), r). *)
+   Whole-tree statement for the alternative forms: C03_legal_read_back (oracle form: the annotated
+   tree [sval] carries one choice per free point) and C03_legal_read_back_rel (relation [legal]) at the
+   end of this file; the header-level lemmas C03_alt_* are what they compose. *)
 From PV Require Import Thrift.Spec Thrift.Interp Thrift.Msg Thrift.Skip
-  Proofs.HeaderP Proofs.RoundtripP Proofs.SpecP.
+  Proofs.HeaderP Proofs.RoundtripP Proofs.SpecP Proofs.SpecTreeP.
 Open Scope Z_scope.
 
 (* pilota -> reference: for every well-typed value the bytes pilota's writer emits ARE the
@@ -106,3 +106,37 @@ Theorem C03_app_exception : forall p k msg kind c ss c', p <> PBinaryLE ->
   flat ss = sp p (spec_app_exception msg kind).
 Proof. exact app_exception_spec. Qed.
 Print Assumptions C03_app_exception.
+
+(* reference -> pilota, EVERY legal alternative form, WHOLE TREES.  [sv] is a value tree annotated with
+   one choice at every point the specifications leave to the writer (the byte of a binary `true`;
+   long / short compact field header, incl. the short form for delta 15; long / short list and set
+   header; bool element type 1 or 2 in collection and map headers; the empty map is one byte); the
+   specification's encoder [sp p] run on it, followed by arbitrary bytes [r], is read back by pilota's
+   reader to exactly the value, consuming exactly the encoding and restoring the reader context. *)
+Theorem C03_legal_read_back : forall p sv, p <> PBinaryLE -> wt (erase sv) = true ->
+  forall fuel r rcx, (vsize (erase sv) <= fuel)%nat -> idle rcx ->
+    read_val p fuel (stype sv) (mkS (sp p sv ++ r) rcx) = Ok (canon p (erase sv), mkS r rcx).
+Proof. exact legal_read_back_tree. Qed.
+Print Assumptions C03_legal_read_back.
+
+(* the same with the relation "l is a spec-legal encoding of v" (= the encoder under SOME oracle) *)
+Theorem C03_legal_read_back_rel : forall p v l, p <> PBinaryLE -> legal p v l ->
+  forall fuel r rcx, (vsize v <= fuel)%nat -> idle rcx ->
+    read_val p fuel (ttype_of v) (mkS (l ++ r) rcx) = Ok (canon p v, mkS r rcx).
+Proof. exact legal_read_back_rel. Qed.
+Print Assumptions C03_legal_read_back_rel.
+
+(* what pilota writes is one of the legal encodings (the canonical oracle) *)
+Theorem C03_written_is_legal : forall p k v c ss c', p <> PBinaryLE -> wt v = true -> w_pend c = None ->
+  write_val p k v c = Ok (ss, c') -> legal p v (flat ss).
+Proof. exact written_is_legal. Qed.
+Print Assumptions C03_written_is_legal.
+
+(* NOT accepted (candidate finding, see NOTES.md): the compact specification's TEXT encodes a bool
+   element `false` as the byte 0 (all Apache implementations write 2 and read anything but 1 as false);
+   pilota's compact reader rejects 0 *)
+Theorem C03_alt_compact_bool_elem_zero_refuted :
+  read_val PCompact 9 TList (mkS [x11; x00] r0) = Err EInvalidData /\
+  read_val PCompact 9 TList (mkS [x11; x02] r0) = Ok (VList TBool [VBool false], mkS [] r0).
+Proof. exact compact_bool_elem_zero_rejected. Qed.
+Print Assumptions C03_alt_compact_bool_elem_zero_refuted.
